@@ -335,7 +335,9 @@ func (g *G) stringText() string {
 	if g.chance(0.06) {
 		// a backslash is an ordinary character of a string literal, \" keeps the literal open; a
 		// literal ending in a backslash is well formed when no other quote follows on its line
-		return g.pick([]string{`a\b`, `say \"hi\"`, `dir\`, `\\`, `\n`})
+		// (a literal ENDING in a backslash is only well formed as the last thing on its line that
+		// has a quote in it: genStmt places those)
+		return g.pick([]string{`a\b`, `say \"hi\"`, `\\x`, `\n`})
 	}
 	return g.pick([]string{"k", "fee", "owner", "hello world", "", "a-b_c"})
 }
@@ -812,6 +814,12 @@ func (g *G) genStmt() Stmt {
 	case 2:
 		if g.chance(0.5) {
 			s = Stmt{K: "call", Fn: "set_tx_meta", Args: []Expr{*g.stringExpr(), *g.anyExpr()}}
+			if s.Args[0].K != "str" || !strings.Contains(s.Args[0].S, `\`) {
+				if g.chance(0.05) {
+					// the value is the last literal of its line: it may end in a backslash
+					s.Args[1] = *Str(g.pick([]string{`dir\`, `\\`, `C:\tmp\`}))
+				}
+			}
 		} else {
 			a, _ := g.accountExpr(true)
 			s = Stmt{K: "call", Fn: "set_account_meta", Args: []Expr{*a, *g.stringExpr(), *g.anyExpr()}}
